@@ -578,3 +578,79 @@ func (p *Prog) ownedBy(fn *ssa.Function, isOwner func(name string) bool, depth i
 	}
 	return owner, true
 }
+
+// Origin is one value a use may see, with the branch facts of the way it takes to the use.
+type Origin struct {
+	Val   ssa.Value
+	Facts []Fact
+}
+
+// Origins splits v over phis and over the return paths of the repo helpers that produce it (a helper's
+// parameter is replaced by the argument of the call), collecting the branch facts on the way: "which of
+// several values is chosen, and under which condition" reads the same whether the choice is written as an
+// if/else in place or as the early returns of an extracted helper.
+// Calls for which stop answers true are not entered (their result is a leaf).
+func (p *Prog) Origins(v ssa.Value, facts []Fact, depth int, stop func(ssa.CallInstruction) bool) []Origin {
+	return p.origins(v, facts, depth, map[ssa.Value]bool{}, stop)
+}
+
+func (p *Prog) origins(v ssa.Value, facts []Fact, depth int, seen map[ssa.Value]bool, stop func(ssa.CallInstruction) bool) []Origin {
+	leaf := []Origin{{Val: v, Facts: facts}}
+	if depth <= 0 || seen[v] {
+		return leaf
+	}
+	seen[v] = true
+	defer delete(seen, v)
+	switch x := v.(type) {
+	case *ssa.Phi:
+		var out []Origin
+		for i, e := range x.Edges {
+			f := append(append([]Fact{}, facts...), FactsOnEdge(x.Block().Preds[i], x.Block())...)
+			out = append(out, p.origins(e, f, depth, seen, stop)...)
+		}
+		return out
+	case *ssa.Call, *ssa.Extract:
+		var call *ssa.Call
+		idx := 0
+		if e, ok := x.(*ssa.Extract); ok {
+			c, ok := e.Tuple.(*ssa.Call)
+			if !ok {
+				return leaf
+			}
+			call, idx = c, e.Index
+		} else {
+			call = x.(*ssa.Call)
+		}
+		callee := StaticCallee(call)
+		if stop != nil && stop(call) {
+			return leaf
+		}
+		if callee == nil || callee.Blocks == nil || !p.InRepo(callee) || callee.Object() == nil || callee.Object().Exported() || idx >= callee.Signature.Results().Len() {
+			return leaf
+		}
+		var out []Origin
+		for _, rp := range ReturnPaths(callee, idx) {
+			for _, o := range p.origins(rp.Val, rp.Facts, depth-1, seen, stop) {
+				f := append(append([]Fact{}, facts...), o.Facts...)
+				if par, ok := o.Val.(*ssa.Parameter); ok && par.Parent() == callee {
+					bound := false
+					for i, q := range callee.Params {
+						if q == par && i < len(call.Call.Args) {
+							out = append(out, p.origins(call.Call.Args[i], f, depth-1, seen, stop)...)
+							bound = true
+						}
+					}
+					if bound {
+						continue
+					}
+				}
+				out = append(out, Origin{Val: o.Val, Facts: f})
+			}
+		}
+		if len(out) == 0 {
+			return leaf
+		}
+		return out
+	}
+	return leaf
+}
